@@ -135,6 +135,10 @@ def apply_site(site, circ, ovr, extra=None):
     if site == 'unit_timing':
         from jaqalpaq.core.algorithm import normalize_blocks_with_unitary_timing
         return lambda: normalize_blocks_with_unitary_timing(circ)
+    if site == 'unit_timing_again':
+        # the second call on the same circuit object (the input was projected before the first)
+        from jaqalpaq.core.algorithm import normalize_blocks_with_unitary_timing
+        return lambda: (normalize_blocks_with_unitary_timing(circ), normalize_blocks_with_unitary_timing(circ))[1]
     raise ValueError(site)
 
 
